@@ -12,17 +12,21 @@ import ast
 from ..fn import World
 from ..index import AnalysisError, dotted
 from ..astutil import text, short, endswith, calls_in, walk_no_nested, names_loaded, enclosing_chain
+from ..dataflow import DefUse
 from .. import events as E
 from .. import types as T
-from ._h_A import (FactReach, branch_succ, loop_breaks, nodes_of_stmts, nodes_for, kwarg, is_const,
-                   stmts_in, never_returns)
+from ._h_A import (FactReach, Facts, branch_succ, loop_breaks, nodes_of_stmts, nodes_for, kwarg,
+                   is_const, stmts_in, never_returns, inliner, expander, bind_call, call_arg,
+                   real_loops, Owners, followed, returns_of, value_at, strip_wrappers, atom_of,
+                   reaching_defs)
 
 EXPLANATION = (
   "Decides the structural legs of the out-of-order protocol that keeps a formula from ever being "
   "handed a stale value, whatever order the scheduler picks. R1: every record access funnels "
   "dirty nodes into _recompute, which inside an update loop visits the node with "
-  "allow_evaluation=False; that visit scans ALL required rows (no break, no return on a required "
-  "row, skips only for rows that are clean, absent or done) and raises OrderError for the first "
+  "allow_evaluation=False; that visit scans ALL required rows (the rows counted as required are "
+  "exactly the first sequence scanned; no break, no return on a required row, skips only for rows "
+  "that are clean, absent or done) and raises OrderError for the first "
   "one that still needs evaluation, caching the error first so a formula that swallows it is still "
   "re-ordered. R2: _recompute_one_cell checks the cached error after the user code returns and "
   "before returning its result; in the error branch the order error wins over the user error and "
@@ -36,6 +40,7 @@ EXPLANATION = (
 STEP = "engine.Engine._recompute_step"
 LOOP = "engine.Engine._update_loop"
 ONE = "engine.Engine._recompute_one_cell"
+CRE = "self._cell_required_error"
 
 
 def check(run, repo, tier):
@@ -50,10 +55,33 @@ def check(run, repo, tier):
 
 
 # ------------------------------------------------------------------------------------------
+def work_item(w, e):
+  """{field: expr} of a WorkItem(...) construction (positional or keyword arguments), else None.
+  The field names are read from the namedtuple definition."""
+  if not (isinstance(e, ast.Call) and endswith(dotted(e.func), "WorkItem")):
+    return None
+  d = w.repo.module("engine").assigns.get("WorkItem")
+  fields = None
+  if isinstance(d, ast.Call) and len(d.args) == 2 and isinstance(d.args[1], (ast.Tuple, ast.List)):
+    fields = [x.value for x in d.args[1].elts if isinstance(x, ast.Constant)]
+  if not fields or len(fields) != 3:
+    raise AnalysisError("engine.WorkItem is no longer a three-field namedtuple")
+  if len(e.args) > 3 or any(k.arg not in fields for k in e.keywords):
+    return None
+  out = dict(zip(fields, e.args))
+  for k in e.keywords:
+    out[k.arg] = k.value
+  if len(out) != 3:
+    return None
+  return {"node": out[fields[0]], "row_ids": out[fields[1]], "locks": out[fields[2]]}
+
+
 class Scan(object):
   """The roles inside Engine._recompute_step, found by what they do (not by name or position)."""
   def __init__(self, w):
-    fn = self.fn = w.fn(STEP)
+    self.w = w
+    fn = self.fn = inliner(w).fn(STEP)
+    ex = self.ex = expander(fn)
     ps = fn.fi.params()
     if len(ps) < 2:
       raise AnalysisError("%s: node parameter vanished" % STEP)
@@ -64,10 +92,11 @@ class Scan(object):
         raise AnalysisError("%s: parameter %s vanished" % (STEP, need))
     # the scan loop: for <i>, <row> in enumerate(itertools.chain(<required>, <dirty>))
     loops = []
-    for s in stmts_in(fn.node.body, ast.For):
-      it = s.iter
+    for s in real_loops(fn.node.body, ast.For):
+      it = ex.expand(s.iter)
       idx = None
-      if isinstance(it, ast.Call) and dotted(it.func) == "enumerate" and len(it.args) == 1:
+      if isinstance(it, ast.Call) and dotted(it.func) == "enumerate" and len(it.args) == 1 and \
+          not it.keywords:
         it = it.args[0]
         if isinstance(s.target, ast.Tuple) and len(s.target.elts) == 2 and \
             all(isinstance(e, ast.Name) for e in s.target.elts):
@@ -79,28 +108,39 @@ class Scan(object):
       else:
         continue
       if isinstance(it, ast.Call) and endswith(dotted(it.func), "chain") and len(it.args) == 2 and \
-          all(isinstance(a, ast.Name) for a in it.args):
-        loops.append((s, idx, row, it.args[0].id, it.args[1].id))
+          not it.keywords and isinstance(it.args[1], ast.Name):
+        loops.append((s, idx, row, it.args[0], it.args[1].id))
     if len(loops) != 1:
       raise AnalysisError("%s: the scan loop over chain(required rows, dirty rows) was not found "
                           "(found %d candidates)" % (STEP, len(loops)))
-    self.loop, self.idx, self.row, self.req_var, self.dirty_var = loops[0]
-    # the required-rows variable derives from the require_rows parameter
-    defs = E.local_defs(fn.node, self.req_var)
-    if self.req_var != "require_rows" and not defs:
-      raise AnalysisError("%s: required-rows variable has no definition" % STEP)
-    if not all("require_rows" in names_loaded(d) for d in defs):
+    self.loop, self.idx, self.row, self.req_expr, self.dirty_var = loops[0]
+    self.req_text = text(self.req_expr)
+    self.req_var = self.req_expr.id if isinstance(self.req_expr, ast.Name) else None
+    # the required-rows sequence derives from the require_rows parameter
+    src = set(names_loaded(self.req_expr))
+    if self.req_var is not None:
+      defs = E.local_defs(fn.node, self.req_var)
+      if self.req_var != "require_rows" and not defs:
+        raise AnalysisError("%s: required-rows variable has no definition" % STEP)
+      if not all("require_rows" in names_loaded(d) for d in defs):
+        raise AnalysisError("%s: first chain() argument does not derive from require_rows" % STEP)
+    elif "require_rows" not in src:
       raise AnalysisError("%s: first chain() argument does not derive from require_rows" % STEP)
     # the dirty-rows variable derives from self.recompute_map
     ddefs = E.local_defs(fn.node, self.dirty_var)
-    if not any(isinstance(d, ast.Call) and endswith(fn.name(d), "recompute_map.get") for d in ddefs):
+    def is_map_lookup(d):
+      d = ex.expand(d)
+      if isinstance(d, ast.Call) and endswith(dotted(d.func), "recompute_map.get"):
+        return True
+      return isinstance(d, ast.Subscript) and endswith(dotted(d.value), "recompute_map")
+    if not any(is_map_lookup(d) for d in ddefs):
       raise AnalysisError("%s: second chain() argument is not the node's entry of recompute_map"
                           % STEP)
     # the `required` flag: the one name bound at the top level of the loop body from the index
     flags = []
     for s in self.loop.body:
       if isinstance(s, ast.Assign) and len(s.targets) == 1 and isinstance(s.targets[0], ast.Name) \
-          and self.idx is not None and self.idx in names_loaded(s.value):
+          and self.idx is not None and self.idx in names_loaded(ex.expand(s.value)):
         flags.append((s.targets[0].id, s))
     if len(flags) != 1:
       raise AnalysisError("%s: the per-row `required` flag was not found" % STEP)
@@ -108,19 +148,22 @@ class Scan(object):
     # the done set: <name> = self._recompute_done_map[node]
     self.done_vars = set()
     for s in stmts_in(fn.node.body, ast.Assign):
-      if len(s.targets) == 1 and isinstance(s.targets[0], ast.Name) and \
-          isinstance(s.value, ast.Subscript) and \
-          endswith(fn.name(s.value.value), "_recompute_done_map") and \
-          text(s.value.slice) == self.p_node:
+      if len(s.targets) == 1 and isinstance(s.targets[0], ast.Name) and self.is_done_set(s.value):
         self.done_vars.add(s.targets[0].id)
-    if not self.done_vars:
-      raise AnalysisError("%s: done set (self._recompute_done_map[node]) not found" % STEP)
     # the evaluation: <v> = self._recompute_one_cell(...)
     self.evals = [c for c in calls_in(self.loop.body)
                   if endswith(fn.name(c), "self._recompute_one_cell")]
     if len(self.evals) != 1:
       raise AnalysisError("%s: expected one _recompute_one_cell call in the scan loop" % STEP)
     self.eval = self.evals[0]
+
+  def is_done_set(self, e):
+    """Does e denote this node's set of rows already done: self._recompute_done_map[node]?"""
+    if isinstance(e, ast.Name) and e.id in getattr(self, "done_vars", ()):
+      return True
+    e = self.ex.expand(e)
+    return isinstance(e, ast.Subscript) and endswith(dotted(e.value), "_recompute_done_map") and \
+        text(e.slice) == self.p_node
 
   def eval_nodes(self, cfg):
     return {n.id for n in cfg.nodes if any(c is self.eval for c in calls_in(n.exprs))}
@@ -137,41 +180,59 @@ class Scan(object):
 
 def is_order_error_ctor(e, sc):
   """OrderError(<msg>, <node param>, <row var>)"""
-  return isinstance(e, ast.Call) and dotted(e.func) == "OrderError" and len(e.args) == 3 and \
-      text(e.args[1]) == sc.p_node and text(e.args[2]) == sc.row
+  if not (isinstance(e, ast.Call) and endswith(dotted(e.func), "OrderError")):
+    return False
+  m = bind_call(e, sc.w.repo.func("engine.OrderError.__init__"))
+  ips = sc.w.repo.func("engine.OrderError.__init__").params()
+  return m is not None and len(ips) == 4 and sc.ex.norm(m[ips[2]]) == sc.p_node and \
+      sc.ex.norm(m[ips[3]]) == sc.row
 
 
 # ------------------------------------------------------------------------------------------
+def _no_dirty_rows_atoms(p_node):
+  """Spellings of "this node has no dirty rows" as (atom, truth value)."""
+  m = "self.recompute_map"
+  return {"%s.get(%s)" % (m, p_node): False, "%s.get(%s, None)" % (m, p_node): False,
+          "%s in %s" % (p_node, m): False}
+
+
 def r1_funnel(run, w):
   R1 = run.rule("C06-R1", "dirty reads funnel into _recompute; inside an update loop it visits the "
                 "node with allow_evaluation=False; that visit scans every required row and raises "
                 "OrderError (cached first) for one that needs evaluation", floor=15)
-  # (a) _use_node: every return before the _recompute call is one of the two accepted shortcuts
-  un = w.fn("engine.Engine._use_node")
+  inl = inliner(w)
+  own = Owners(w)
+  # (a) _use_node: every path that does not reach _recompute ends under one of the two shortcuts
+  un = inl.fn("engine.Engine._use_node")
+  uex = expander(un)
   ps = un.fi.params()
   cfg = un.cfg
   rec = [(n, c) for (n, c, nm) in un.calls() if nm == "self._recompute"]
   if len(rec) != 1:
     raise AnalysisError("_use_node: expected exactly one self._recompute call")
   rn, rc = rec[0]
-  ok_args = len(rc.args) == 2 and text(rc.args[0]) == ps[1] and text(rc.args[1]) == ps[3]
-  run.ob(R1, un.qualname, short(rc), "the node and rows being read are the ones brought up to date",
-         ok_args, fi=un.fi, node=rc)
-  for n in cfg.nodes:
-    if n.kind != "return" or cfg.dominated_by(n.id, {rn.id}):
-      continue
-    chain = enclosing_chain(un.node, n.stmt)
-    tests = [s.test for (s, fld) in chain if isinstance(s, ast.If) and fld == "body"]
-    ok = len(chain) == 1 and len(tests) == 1 and _use_node_shortcut(tests[0], ps[1])
-    run.ob(R1, un.qualname, "if %s: return" % (short(tests[0]) if tests else "?"),
-           "a read skips recomputation only while peeking or when the node has no dirty rows",
-           ok, fi=un.fi, node=n.stmt)
-  ok = cfg.postdominated_by(cfg.entry.id, {rn.id} | {n.id for n in cfg.nodes if n.kind == "return"})
+  rf = w.repo.func("engine.Engine._recompute")
+  m = bind_call(rc, rf) or {}
+  rps = rf.params()
+  ok_args = len(rps) == 3 and len(ps) >= 4 and m.get(rps[1]) is not None and \
+      uex.norm(m[rps[1]]) == ps[1] and m.get(rps[2]) is not None and uex.norm(m[rps[2]]) == ps[3]
+  run.ob(R1, un.qualname, "self._recompute(node, row_ids)", "the node and rows being read are the "
+         "ones brought up to date", ok_args, fi=un.fi, node=rc)
+  shortcuts = dict(_no_dirty_rows_atoms(ps[1]))
+  shortcuts["self._peeking"] = True
+  fr = Facts(cfg, set(shortcuts), ex=uex)
+  seen = fr.run([(cfg.entry.id, {})], stop={rn.id})
+  bad = [f for f in seen.get(cfg.exit.id, [])
+         if not any(f.get(k) is v for k, v in shortcuts.items())]
   run.ob(R1, un.qualname, "every path ends in a shortcut return or self._recompute(...)",
-         "no path through _use_node reads a dirty node without recomputing it", ok, fi=un.fi)
+         "a read skips recomputation only while peeking or when the node has no dirty rows",
+         not bad, fi=un.fi,
+         witness=None if not bad else "a path reaches the end of _use_node without recomputing, "
+         "knowing only %s" % (bad[0] or "nothing"))
 
   # (b) _recompute: in an update loop -> _recompute_step(allow_evaluation=False); else own loop
-  fn = w.fn("engine.Engine._recompute")
+  fn = inl.fn("engine.Engine._recompute")
+  fex = expander(fn)
   ps = fn.fi.params()
   cfg = fn.cfg
   flag = "self._in_update_loop"
@@ -179,17 +240,19 @@ def r1_funnel(run, w):
   loops = [(n, c) for (n, c, nm) in fn.calls() if nm == "self._update_loop"]
   if not steps or not loops:
     raise AnalysisError("_recompute: _recompute_step / _update_loop calls not found")
+  stf = w.repo.func(STEP)
   good_steps = set()
   for (n, c) in steps:
-    ae = kwarg(c, "allow_evaluation", 1)
-    rr = kwarg(c, "require_rows", 2)
-    ok = ae is not None and is_const(ae, False) and len(c.args) >= 1 and \
-        text(c.args[0]) == ps[1] and rr is not None and text(rr) == ps[2]
+    m = bind_call(c, stf) or {}
+    ae, rr, nd = m.get("allow_evaluation"), m.get("require_rows"), m.get(stf.params()[1])
+    ok = ae is not None and is_const(fex.expand(ae), False) and nd is not None and \
+        fex.norm(nd) == ps[1] and rr is not None and fex.norm(rr) == ps[2]
     if ok:
       good_steps.add(n.id)
-    run.ob(R1, fn.qualname, short(c), "a nested visit never evaluates: allow_evaluation=False, with "
+    run.ob(R1, fn.qualname, "self._recompute_step(node, allow_evaluation=False, require_rows=row_ids)",
+           "a nested visit never evaluates: allow_evaluation=False, with "
            "the caller's node and required rows", ok, fi=fn.fi, node=c)
-  fr = FactReach(cfg, {flag})
+  fr = Facts(cfg, {flag}, ex=fex)
   seen = fr.run([(cfg.entry.id, {flag: True})], stop=good_steps)
   ok = cfg.exit.id not in seen and not ({n.id for (n, c) in loops} & set(seen))
   run.ob(R1, fn.qualname, "if self._in_update_loop: self._recompute_step(..., allow_evaluation=False)",
@@ -200,139 +263,150 @@ def r1_funnel(run, w):
   ok = cfg.exit.id not in seen and not ({n.id for (n, c) in steps} & set(seen))
   run.ob(R1, fn.qualname, "else: self._update_loop([WorkItem(node, row_ids, [])], ...)",
          "outside an update loop a dirty read starts a loop of its own", ok, fi=fn.fi)
+  ulf = w.repo.func(LOOP)
   for (n, c) in loops:
-    a = c.args[0] if c.args else None
-    ok = isinstance(a, ast.List) and len(a.elts) == 1 and isinstance(a.elts[0], ast.Call) and \
-        dotted(a.elts[0].func) == "WorkItem" and len(a.elts[0].args) == 3 and \
-        text(a.elts[0].args[0]) == ps[1] and text(a.elts[0].args[1]) == ps[2]
-    run.ob(R1, fn.qualname, short(c), "the on-demand loop is seeded with the node and rows being "
-           "read", ok, fi=fn.fi, node=c)
+    a = call_arg(c, ulf, ulf.params()[1])
+    a = fex.expand(a) if a is not None else None
+    wi = work_item(w, fex.expand(a.elts[0])) if isinstance(a, (ast.List, ast.Tuple)) and \
+        len(a.elts) == 1 else None
+    ok = wi is not None and fex.norm(wi["node"]) == ps[1] and fex.norm(wi["row_ids"]) == ps[2]
+    run.ob(R1, fn.qualname, "self._update_loop([WorkItem(node, row_ids, [])], ...)", "the on-demand "
+           "loop is seeded with the node and rows being read", ok, fi=fn.fi, node=c)
 
   # (c) who may call _recompute_step, and with what
+  named = {LOOP, "engine.Engine._recompute"}
   for fi in w.repo.all_functions():
-    f2 = w.fn_of(fi)
     for c in calls_in(fi.node.body):
       if isinstance(c.func, ast.Attribute) and c.func.attr == "_recompute_step":
-        own = fi.qualname in (LOOP, "engine.Engine._recompute")
-        ok = own
-        if fi.qualname == LOOP:
-          ok = kwarg(c, "allow_evaluation", 1) is None     # the scheduler's visit evaluates
+        owners = own.of(fi, named)
+        ok = owners <= named
+        if ok and owners == {LOOP}:
+          m = bind_call(c, stf) or {}
+          ae = m.get("allow_evaluation")
+          ok = ae is not None and is_const(expander(w.fn_of(fi)).expand(ae), True)
+        if ok:
+          followed(inl, fi, owners)
         run.ob(R1, fi.qualname, short(c), "_recompute_step is entered only by the scheduler "
                "(evaluating) and by _recompute (non-evaluating)", ok, fi=fi, node=c,
                nontrivial=False)
 
 
-def _use_node_shortcut(test, p_node):
-  t = text(test)
-  if t == "self._peeking":
-    return True
-  # self.recompute_map.get(node) is None
-  if isinstance(test, ast.Compare) and len(test.ops) == 1 and isinstance(test.ops[0], ast.Is) and \
-      is_const(test.comparators[0], None) and isinstance(test.left, ast.Call) and \
-      endswith(dotted(test.left.func), "self.recompute_map.get") and \
-      len(test.left.args) >= 1 and text(test.left.args[0]) == p_node and \
-      (len(test.left.args) == 1 or is_const(test.left.args[1], None)):
-    return True
-  return False
-
-
 # ------------------------------------------------------------------------------------------
-def _classify_skip_atom(a, sc, fn):
-  """'J' = the row needs no evaluation now; 'N' = recognised, not a justification;
-  None = unknown shape."""
-  if isinstance(a, ast.Name):
-    return "N"
-  if isinstance(a, ast.UnaryOp) and isinstance(a.op, ast.Not) and isinstance(a.operand, ast.Name):
-    return "J" if a.operand.id == sc.flag else "N"
-  if isinstance(a, ast.Compare) and len(a.ops) == 1 and isinstance(a.ops[0], (ast.In, ast.NotIn)) \
-      and isinstance(a.left, ast.Name) and a.left.id == sc.row:
-    neg = isinstance(a.ops[0], ast.NotIn)
-    c = a.comparators[0]
-    if isinstance(c, ast.Name) and c.id == sc.dirty_var:
-      return "J" if neg else "N"          # not dirty (any more): already up to date
-    if isinstance(c, ast.Name) and c.id in sc.done_vars:
-      return "N" if neg else "J"          # already done in this round
-    if isinstance(c, ast.Attribute) and c.attr == "row_ids" and fn.type_of(c.value) == T.TABLE:
-      return "J" if neg else "N"          # the row no longer exists
-    return None
-  return None
-
-
-def _justified(test, sc, fn):
-  """True / False / None(unknown idiom) : does `test` being true justify skipping the row?"""
-  if isinstance(test, ast.BoolOp):
-    rs = [_justified(v, sc, fn) for v in test.values]
-    if isinstance(test.op, ast.And):
-      if any(r is True for r in rs):
-        return True
-      return None if any(r is None for r in rs) else False
-    if any(r is None for r in rs):
-      return None
-    return all(rs)
-  k = _classify_skip_atom(test, sc, fn)
-  if k is None:
-    return None
-  return k == "J"
-
-
 def r1_scan(run, w, sc):
   R1 = "C06-R1"
   fn = sc.fn
+  ex = sc.ex
   cfg = fn.xcfg
+  du = DefUse(fn, cfg)
   head = sc.head(cfg)
   body = sc.body_nodes(cfg)
+  # (c2) the rows treated as required are exactly the first sequence of the chain
+  fv = ex.expand(sc.flag_stmt.value)
+  disj = fv.values if isinstance(fv, ast.BoolOp) and isinstance(fv.op, ast.Or) else [fv]
+  counts, none_case = [], []
+  for d in disj:
+    if isinstance(d, ast.Compare) and len(d.ops) == 1:
+      l, r, op = d.left, d.comparators[0], d.ops[0]
+      if isinstance(op, ast.Lt) and text(l) == sc.idx:
+        counts.append(r)
+        continue
+      if isinstance(op, ast.Gt) and text(r) == sc.idx:
+        counts.append(l)
+        continue
+      if isinstance(op, ast.Eq) and is_const(r, 0):
+        none_case.append(l)
+        continue
+      if isinstance(op, ast.Eq) and is_const(l, 0):
+        none_case.append(r)
+        continue
+    if isinstance(d, ast.UnaryOp) and isinstance(d.op, ast.Not):
+      none_case.append(d.operand)
+      continue
+    raise AnalysisError("%s: the `required` flag `%s` is not a recognised shape"
+                        % (STEP, short(sc.flag_stmt.value)))
+  if len(counts) != 1:
+    raise AnalysisError("%s: the `required` flag does not compare the scan index with a count" % STEP)
+  def count_of(e):
+    """the sequence whose length e is (text), or the sequence itself for a truth test"""
+    if isinstance(e, ast.Call) and dotted(e.func) == "len" and len(e.args) == 1:
+      return text(e.args[0])
+    return None
+  cnt = count_of(counts[0])
+  ok = cnt is not None and cnt == sc.req_text and \
+      all(count_of(x) == sc.req_text or text(x) == sc.req_text for x in none_case)
+  # the sequence is not rebound between the count and the scan
+  if ok and sc.req_var is not None:
+    reb = du.rebinders(sc.req_var)
+    cdefs = set()
+    raw = sc.flag_stmt.value
+    for nm in names_loaded(raw):
+      v = ex.value(nm)
+      if v is not None and sc.req_var in names_loaded(ex.expand(v)):
+        cdefs |= du.defs.get(nm, set())
+    for d in cdefs:
+      between = cfg.reach_after({d}, removed={head}) & cfg.reach({head}, removed={d}, forward=False)
+      if between & reb:
+        ok = False
+    if reb & body:
+      ok = False
+  run.ob(R1, fn.qualname, "required = <index> < len(<required rows>) or there are none",
+         "exactly the rows of the first chain() argument -- all of them, duplicates included -- are "
+         "treated as required; a required row counted as opportunistic would end the "
+         "non-evaluating visit silently", ok, fi=fn.fi, node=sc.flag_stmt,
+         witness=None if ok else "the count compared with the scan index is `%s`, the sequence "
+         "scanned first is `%s`" % (short(counts[0]), sc.req_text))
   # (d) the scan is exhaustive: nothing breaks out of it
   brk = loop_breaks(sc.loop)
-  run.ob(R1, fn.qualname, "no `break` leaves the scan over chain(%s, %s)" % (sc.req_var, sc.dirty_var),
+  run.ob(R1, fn.qualname, "no `break` leaves the scan over chain(<required>, <dirty>)",
          "every required row is examined: a later required row that is still dirty is not skipped "
          "because an earlier one was clean", not brk, fi=fn.fi,
          node=brk[0] if brk else sc.loop,
          witness=None if not brk else "break at line %d ends the scan early" % brk[0].lineno)
-  # (e) skips: every `continue` is guarded by a reason the row needs no evaluation
-  for s in stmts_in(sc.loop.body, ast.Continue):
-    chain = _chain_in_loop(fn, sc.loop, s)
-    if any(isinstance(x, (ast.For, ast.While)) for (x, fld) in chain):
-      continue          # belongs to a loop nested in the scan
-    tests = []
-    for (x, fld) in chain:
-      if isinstance(x, ast.If) and fld == "body":
-        tests.append(x.test)
-      elif isinstance(x, ast.If):
-        raise AnalysisError("%s: `continue` in an else branch (unsupported shape)" % STEP)
-    if not tests:
-      ok = False
-      desc = "unconditional continue"
-    else:
-      j = [_justified(t, sc, fn) for t in tests]
-      if not any(r is True for r in j) and any(r is None for r in j):
-        raise AnalysisError("%s: skip guard `%s` is not a recognised idiom"
-                            % (STEP, " and ".join(text(t) for t in tests)))
-      ok = any(r is True for r in j)
-      desc = "if %s: continue" % " and ".join(short(t, 70) for t in tests)
-    run.ob(R1, fn.qualname, desc, "a row is skipped only when it is clean, absent, already done or "
-           "not required", ok, fi=fn.fi, node=s)
-  # (f) path-sensitive: a required row never leaves the scan by `return`
+  # (e) skips: a row leaves the iteration without being evaluated only for a reason it needs no
+  #     evaluation (path-sensitive: any spelling of the guards)
   flag_nodes = nodes_for(cfg, sc.flag_stmt)
   starts = set()
   for f in flag_nodes:
     starts |= cfg.normal_succ(f)
-  fr = FactReach(cfg, {sc.flag, "allow_evaluation"},
-                 noreturn=lambda n: never_returns(w, fn, n))
+  tbl = None
+  for nm, tag in fn.env.items():
+    if tag == T.TABLE:
+      tbl = nm if tbl is None else tbl
+  just = {"%s in %s" % (sc.row, sc.dirty_var): False}
+  for dv in sc.done_vars:
+    just["%s in %s" % (sc.row, dv)] = True
+  just["%s in self._recompute_done_map[%s]" % (sc.row, sc.p_node)] = True
+  for nm, tag in fn.env.items():
+    if tag == T.TABLE:
+      just["%s in %s.row_ids" % (sc.row, nm)] = False
+  just["%s in self.tables[%s.table_id].row_ids" % (sc.row, sc.p_node)] = False
+  evals = sc.eval_nodes(cfg)
+  fr = Facts(cfg, set(just) | {sc.flag, "allow_evaluation"}, ex=None,
+             noreturn=lambda n: never_returns(w, fn, n))
+  seen = fr.run([(s, {}) for s in starts], stop={head} | evals)
+  arrivals = [f for f in seen.get(head, [])]
+  # arrivals at the head by an exceptional edge do not exist (the head is a `for`); all are skips
+  bad = [f for f in arrivals if not any(f.get(k) is v for k, v in just.items())]
+  run.ob(R1, fn.qualname, "a row is passed over only if not dirty / absent / done",
+         "a row is skipped only when it is clean, absent or already done", not bad, fi=fn.fi,
+         node=sc.loop, witness=None if not bad else "an iteration can end without evaluating the "
+         "row, knowing only %s" % (bad[0] or "nothing"))
+  # (f) path-sensitive: a required row never leaves the scan by `return`
   seen = fr.run([(s, {sc.flag: True}) for s in starts], stop={head})
   rets = [n for n in seen if cfg.nodes[n].kind == "return" and n in body]
-  run.ob(R1, fn.qualname, "no `return` is reachable while %s is true" % sc.flag,
+  run.ob(R1, fn.qualname, "no `return` is reachable while the row is required",
          "the scan is abandoned only on rows nobody asked for", not rets, fi=fn.fi,
          node=cfg.nodes[rets[0]].stmt if rets else sc.loop,
          witness=None if not rets else "return at line %d reachable for a required row"
          % cfg.nodes[rets[0]].lineno)
   # (g) required + not allowed to evaluate => OrderError for this cell, nothing else
-  seen = fr.run([(s, {sc.flag: True, "allow_evaluation": False}) for s in starts], stop={head})
+  fr.noreturn_seen = set()
+  seen = fr.run([(s, {sc.flag: True, "allow_evaluation": False}) for s in starts],
+                stop={head})
   if fr.noreturn_seen:
     raise AnalysisError("%s: the OrderError is raised by a helper (`%s`); the protocol can no "
                         "longer be followed here" % (STEP, short(cfg.nodes[min(fr.noreturn_seen)].stmt)))
-  evals = sc.eval_nodes(cfg)
-  back = {p for p in cfg.pred[head] if p in seen and p in body and cfg.nodes[p].kind != "continue"
-          and (p, head) not in cfg.exc_edges}
+  back = [f for f in seen.get(head, []) if not any(f.get(k) is v for k, v in just.items())]
   raises = [n for n in seen if cfg.nodes[n].kind == "raise_stmt" and n in body]
   ok = not (set(seen) & evals) and not back and bool(raises) and \
       not [n for n in seen if cfg.nodes[n].kind == "return" and n in body]
@@ -340,48 +414,37 @@ def r1_scan(run, w, sc):
   if set(seen) & evals:
     wit = "the cell is evaluated although allow_evaluation is false"
   elif back:
-    wit = "the loop moves on past a required row that needs evaluation (line %d)" \
-        % cfg.nodes[sorted(back)[0]].lineno
+    wit = "the loop moves on past a required row that needs evaluation"
   elif not raises:
     wit = "no raise reachable"
   run.ob(R1, fn.qualname, "required and not allow_evaluation => raise OrderError",
          "a required row that needs evaluation ends the non-evaluating visit with an OrderError "
          "(never a silent return, never moving on)", ok, witness=wit, fi=fn.fi)
+  # (h) cached first: on every path to the raise the cache is known to be non-empty
+  def caches(s):
+    if isinstance(s, ast.Assign) and len(s.targets) == 1 and text(s.targets[0]) == CRE:
+      v = ex.expand(s.value)
+      if is_order_error_ctor(v, sc):
+        return {CRE: True}
+      if isinstance(v, ast.BoolOp) and isinstance(v.op, ast.Or) and text(v.values[0]) == CRE and \
+          is_order_error_ctor(v.values[-1], sc):
+        return {CRE: True}
+    return {}
+  fc = Facts(cfg, {CRE}, ex=ex, on_assign=caches)
+  seen_c = fc.run([(s, {}) for s in starts], stop={head})
   for n in raises:
-    ex = cfg.nodes[n].stmt.exc
-    val = ex
-    if isinstance(ex, ast.Name):
-      ds = E.local_defs(fn.node, ex.id)
-      val = ds[0] if len(ds) == 1 else None
-    run.ob(R1, fn.qualname, "raise %s" % short(val if val is not None else ex),
+    exc = cfg.nodes[n].stmt.exc
+    val = value_at(fn, cfg, du, n, exc) if exc is not None else None
+    run.ob(R1, fn.qualname, "raise OrderError(<msg>, node, row)",
            "the OrderError names this node and this row as the dependency",
-           val is not None and is_order_error_ctor(val, sc), fi=fn.fi, node=cfg.nodes[n].stmt)
-    # (h) cached first: the raise is dominated by `if not self._cell_required_error: <cache it>`
-    guards = []
-    for g in cfg.nodes:
-      if g.kind == "if" and text(g.stmt.test) == "not self._cell_required_error" and \
-          not g.stmt.orelse:
-        asg = [s for s in g.stmt.body if isinstance(s, ast.Assign) and
-               text(s.targets[0]) == "self._cell_required_error" and
-               is_order_error_ctor(s.value, sc)]
-        if asg and len(g.stmt.body) == len(asg):
-          guards.append(g.id)
-    ok = bool(guards) and cfg.dominated_by(n, guards) and \
-        all(n in cfg.reach_after({g}, removed={head}) for g in guards)
-    wit = None if ok else cfg.describe_path(cfg.path(cfg.entry.id, {n}, removed=guards))
+           val is not None and is_order_error_ctor(val, sc), fi=fn.fi, node=cfg.nodes[n].stmt,
+           witness=None if val is None else "raises `%s`" % short(val))
+    ok = n in seen_c and all(f.get(CRE) is True for f in seen_c[n])
     run.ob(R1, fn.qualname, "if not self._cell_required_error: self._cell_required_error = "
            "OrderError(...) before the raise",
            "the error is cached before it is thrown, so a formula that swallows the exception is "
-           "still re-ordered", ok, witness=wit, fi=fn.fi, node=cfg.nodes[n].stmt)
-
-
-def _chain_in_loop(fn, loop, stmt):
-  """Compound statements between `loop` (exclusive) and `stmt`, outermost first."""
-  chain = enclosing_chain(fn.node, stmt)
-  for i, (x, fld) in enumerate(chain):
-    if x is loop:
-      return chain[i + 1:]
-  raise AnalysisError("statement is not inside the scan loop")
+           "still re-ordered", ok, fi=fn.fi, node=cfg.nodes[n].stmt,
+           witness=None if ok else "the raise is reachable without the cache having been filled")
 
 
 # ------------------------------------------------------------------------------------------
@@ -389,51 +452,61 @@ def r2_one_cell(run, w):
   R2 = run.rule("C06-R2", "_recompute_one_cell: after the user code returns, the cached order error "
                 "is checked before the result is returned; in the error branch the order error "
                 "wins over the user error and is reset when raised", floor=8)
-  fn = w.fn(ONE)
+  inl = inliner(w)
+  own = Owners(w)
+  fn = inl.fn(ONE)
+  ex = expander(fn)
   cfg = fn.xcfg
+  du = DefUse(fn, cfg)
   methods = fn.nodes_calling(lambda c, nm, f: isinstance(c.func, ast.Attribute) and
                              c.func.attr == "method", cfg)
   if not methods:
     raise AnalysisError("%s: user-code call (col.method) not found" % ONE)
   tries = [s for s in stmts_in(fn.node.body, ast.Try)
-           if any(cfg.nodes[m].stmt in [x for b in s.body for x in ast.walk(b)] for m in methods)]
+           if any(h.type is None for h in s.handlers) and
+           all(m in nodes_of_stmts(cfg, s.body) for m in methods)]
   if len(tries) != 1:
-    raise AnalysisError("%s: user-code call is not inside exactly one try" % ONE)
+    raise AnalysisError("%s: user-code call is not inside exactly one try with a bare except" % ONE)
   tr = tries[0]
-  body_nodes = nodes_of_stmts(cfg, tr.body)
-  rets = {n for n in body_nodes if cfg.nodes[n].kind == "return"}
-  if not rets:
-    raise AnalysisError("%s: no return of the result in the try body" % ONE)
-  checks = set()
-  for n in cfg.nodes:
-    if n.id in body_nodes and n.kind == "if" and text(n.stmt.test) == "self._cell_required_error" \
-        and n.stmt.body and isinstance(n.stmt.body[0], ast.Raise) and \
-        n.stmt.body[0].exc is not None and text(n.stmt.body[0].exc) == "self._cell_required_error":
-      checks.add(n.id)
-  for m in sorted(methods):
-    ok = bool(checks) and cfg.postdominated_by(m, checks, exits=rets, completed=True)
-    wit = None if ok else cfg.describe_path(cfg.path(m, rets, removed=checks, after=True,
-                                                     completed=True))
-    run.ob(R2, fn.qualname, "%s ... if self._cell_required_error: raise ... return result"
-           % short(cfg.nodes[m].stmt, 50),
-           "a formula that swallowed the OrderError (and went on with a stale value) still has its "
-           "cell re-ordered instead of its result stored", ok, witness=wit, fi=fn.fi,
-           node=cfg.nodes[m].stmt)
-  # the error branch
   bare = [h for h in tr.handlers if h.type is None]
-  if len(bare) != 1:
-    raise AnalysisError("%s: bare except around the user code not found" % ONE)
   h = bare[0]
   hn = [n.id for n in cfg.nodes if n.kind == "handler" and n.stmt is h]
   hbody = nodes_of_stmts(cfg, h.body)
-  reads = [s for s in h.body if isinstance(s, ast.Assign) and len(s.targets) == 1 and
-           isinstance(s.targets[0], ast.Name) and text(s.value) == "self._cell_required_error"]
-  if len(reads) != 1:
+  allh = {n.id for n in cfg.nodes if n.kind == "handler"}
+  # normal completion of the user code: every return reached knows the cache is empty, and the
+  # cached error is raised when it is not
+  fr = Facts(cfg, {CRE}, ex=ex)
+  starts = set()
+  for m in methods:
+    starts |= cfg.normal_succ(m)
+  seen = fr.run([(s, {}) for s in starts], stop=allh)
+  rets = [n for n in seen if cfg.nodes[n].kind == "return"]
+  if not rets:
+    raise AnalysisError("%s: no return of the result after the user code" % ONE)
+  bad = [n for n in rets if not all(f.get(CRE) is False for f in seen[n])]
+  rz = [n for n in seen if cfg.nodes[n].kind == "raise_stmt" and cfg.nodes[n].stmt.exc is not None
+        and ex.norm(cfg.nodes[n].stmt.exc) == CRE and all(f.get(CRE) is True for f in seen[n])]
+  ok = not bad and bool(rz)
+  run.ob(R2, fn.qualname, "col.method(...) ... if self._cell_required_error: raise ... return result",
+         "a formula that swallowed the OrderError (and went on with a stale value) still has its "
+         "cell re-ordered instead of its result stored", ok, fi=fn.fi,
+         node=cfg.nodes[bad[0]].stmt if bad else cfg.nodes[sorted(methods)[0]].stmt,
+         witness=None if ok else ("the result is returned at line %d without the cached order "
+                                  "error having been checked" % cfg.nodes[bad[0]].lineno if bad
+                                  else "the cached order error is never raised"))
+  # the error branch: with an order error pending at the time the handler reads it, the handler
+  # never returns a value, and raises that error
+  reads = [n for n in cfg.nodes if n.id in hbody and n.kind == "stmt" and
+           isinstance(n.stmt, ast.Assign) and len(n.stmt.targets) == 1 and
+           isinstance(n.stmt.targets[0], ast.Name) and text(n.stmt.value) == CRE]
+  if len({n.stmt.targets[0].id for n in reads}) != 1:
     raise AnalysisError("%s: error branch does not read self._cell_required_error into a local" % ONE)
-  var = reads[0].targets[0].id
-  read_nodes = nodes_for(cfg, reads[0])
+  var = reads[0].stmt.targets[0].id
+  read_nodes = {n.id for n in reads}
+  if du.rebinders(var) - read_nodes:
+    raise AnalysisError("%s: the pending-error local is bound more than once" % ONE)
   hrets = {n for n in hbody if cfg.nodes[n].kind == "return"}
-  fr = FactReach(cfg, {var})
+  fr = Facts(cfg, {var})
   starts = set()
   for r in read_nodes:
     starts |= cfg.normal_succ(r)
@@ -443,7 +516,12 @@ def r2_one_cell(run, w):
             cfg.nodes[n].stmt.exc is not None and text(cfg.nodes[n].stmt.exc) == var]
   ok = all(cfg.dominated_by(r, set(hn)) for r in read_nodes) and not bad and bool(raised) and \
       cfg.exit.id not in seen
-  run.ob(R2, fn.qualname, "except: %s = self._cell_required_error ... if %s: raise %s" % (var, var, var),
+  # every way into the rest of the handler passes the read
+  first_h = set()
+  for x in hn:
+    first_h |= cfg.normal_succ(x)
+  ok = ok and not (cfg.reach(first_h, removed=read_nodes) & (hrets | {cfg.exit.id}))
+  run.ob(R2, fn.qualname, "except: <pending> = self._cell_required_error ... if <pending>: raise <pending>",
          "when the cell met a not-yet-evaluated dependency, the order error is re-raised; the "
          "user-level error (often caused by the stale read) is never stored instead", ok,
          witness=None if ok else ("error value returned at line %d with the order error pending"
@@ -452,10 +530,10 @@ def r2_one_cell(run, w):
   for n in raised:
     resets = {x.id for x in cfg.nodes if x.id in hbody and x.kind == "stmt" and
               isinstance(x.stmt, ast.Assign) and
-              text(x.stmt.targets[0]) == "self._cell_required_error" and
+              any(text(t) == CRE for t in x.stmt.targets) and
               is_const(x.stmt.value, None)}
     ok = bool(resets) and not _reach_avoiding(cfg, hn, n, resets)
-    run.ob(R2, fn.qualname, "self._cell_required_error = None before raise %s" % var,
+    run.ob(R2, fn.qualname, "self._cell_required_error = None before raise <pending>",
            "the cached error is consumed when raised, so the next cell evaluated is not "
            "re-ordered for an error that is not its own", ok, fi=fn.fi, node=cfg.nodes[n].stmt)
   # the cache is written only by the protocol
@@ -466,8 +544,12 @@ def r2_one_cell(run, w):
     for x in walk_fn(fi):
       if isinstance(x, ast.Attribute) and x.attr == "_cell_required_error" and \
           isinstance(x.ctx, (ast.Store, ast.Del)):
+        os_ = own.of(fi, set(owners))
+        ok = os_ <= set(owners)
+        if ok:
+          followed(inl, fi, os_)
         run.ob(R2, fi.qualname, "write of _cell_required_error", "the pending-order-error channel "
-               "is written only by the protocol's own functions", fi.qualname in owners, fi=fi,
+               "is written only by the protocol's own functions", ok, fi=fi,
                node=x, nontrivial=False)
 
 
@@ -483,79 +565,117 @@ def walk_fn(fi):
 
 
 # ------------------------------------------------------------------------------------------
+class LoopRoles(object):
+  """The roles inside Engine._update_loop: the pop of a work item and the variables holding its
+  three components, the visit, the try around it and its OrderError handler."""
+  def __init__(self, w):
+    self.w = w
+    fn = self.fn = inliner(w).fn(LOOP)
+    ex = self.ex = expander(fn)
+    cfg = self.cfg = fn.xcfg
+    self.p_items = p_items = fn.fi.params()[1]
+    def is_pop(v):
+      return isinstance(v, ast.Call) and isinstance(v.func, ast.Attribute) and \
+          v.func.attr in ("pop", "popleft") and ex.norm(v.func.value) == p_items
+    pops = [n for n in cfg.nodes if n.kind == "stmt" and isinstance(n.stmt, ast.Assign) and
+            is_pop(n.stmt.value)]
+    if len(pops) != 1 or len(pops[0].stmt.targets) != 1:
+      raise AnalysisError("%s: `node, row_ids, locks = work_items.pop()` not found" % LOOP)
+    self.pop = pop = pops[0]
+    self.pop_call = pop.stmt.value
+    tgt = pop.stmt.targets[0]
+    if isinstance(tgt, ast.Name):
+      # item = work_items.pop(); node, row_ids, locks = item
+      un = [s for s in stmts_in(fn.node.body, ast.Assign) if isinstance(s.value, ast.Name) and
+            s.value.id == tgt.id and len(s.targets) == 1 and isinstance(s.targets[0], ast.Tuple)]
+      if len(un) != 1:
+        raise AnalysisError("%s: the popped work item is not unpacked into three locals" % LOOP)
+      tgt = un[0].targets[0]
+    if not (isinstance(tgt, ast.Tuple) and len(tgt.elts) == 3 and
+            all(isinstance(e, ast.Name) for e in tgt.elts)):
+      raise AnalysisError("%s: `node, row_ids, locks = work_items.pop()` not found" % LOOP)
+    self.v_node, self.v_rows, self.v_locks = [e.id for e in tgt.elts]
+    steps = [(n, c) for (n, c, nm) in fn.calls(cfg) if nm == "self._recompute_step"]
+    if len(steps) != 1:
+      raise AnalysisError("%s: expected one _recompute_step call" % LOOP)
+    self.sn, self.scall = steps[0]
+    tries = []
+    for s in stmts_in(fn.node.body, ast.Try):
+      if self.sn.id in nodes_of_stmts(cfg, s.body):
+        hs = [h for h in s.handlers if h.type is not None and
+              endswith(dotted(h.type), "OrderError") and h.name]
+        if hs:
+          tries.append((s, hs))
+    if len(tries) != 1 or len(tries[0][1]) != 1:
+      raise AnalysisError("%s: `except OrderError as e` handler around the visit not found" % LOOP)
+    self.tr, (self.h,) = tries[0]
+    self.ev = self.h.name
+    self.hn = {n.id for n in cfg.nodes if n.kind == "handler" and n.stmt is self.h}
+    self.hbody = nodes_of_stmts(cfg, self.h.body)
+
+  def is_var(self, e, var):
+    """Does expression e denote the local `var` (directly or through single-assignment aliases)?"""
+    return e is not None and self.ex.norm(e) == self.ex.norm(ast.Name(id=var, ctx=ast.Load()))
+
+  def pushes(self):
+    """[(cfg node, call, {node,row_ids,locks} or None)] for every push onto the work list made in
+    the OrderError handler."""
+    out = []
+    for (n, c, nm) in self.fn.calls(self.cfg):
+      if n.id in self.hbody and isinstance(c.func, ast.Attribute) and \
+          self.ex.norm(c.func.value) == self.p_items and \
+          c.func.attr in ("append", "insert", "appendleft", "extend"):
+        wi = None
+        if c.func.attr == "append" and len(c.args) == 1 and not c.keywords:
+          wi = work_item(self.w, self.ex.expand(c.args[0]))
+        out.append((n, c, wi))
+    return out
+
+
 def r3_reorder(run, w, sc):
   R3 = run.rule("C06-R3", "_update_loop: on OrderError the interrupted item is re-pushed before "
                 "the dependency on a LIFO stack; the error's fields mean what the loop reads",
                 floor=8)
-  fn = w.fn(LOOP)
-  cfg = fn.xcfg
-  p_items = fn.fi.params()[1]
-  # pop site: <node>, <rows>, <locks> = work_items.pop()
-  pops = [n for n in cfg.nodes if n.kind == "stmt" and isinstance(n.stmt, ast.Assign) and
-          isinstance(n.stmt.value, ast.Call) and isinstance(n.stmt.value.func, ast.Attribute) and
-          n.stmt.value.func.attr in ("pop", "popleft") and
-          text(n.stmt.value.func.value) == p_items]
-  if len(pops) != 1 or not isinstance(pops[0].stmt.targets[0], ast.Tuple) or \
-      len(pops[0].stmt.targets[0].elts) != 3:
-    raise AnalysisError("%s: `node, row_ids, locks = work_items.pop()` not found" % LOOP)
-  pop = pops[0]
-  v_node, v_rows, v_locks = [text(e) for e in pop.stmt.targets[0].elts]
-  pc = pop.stmt.value
-  run.ob(R3, fn.qualname, short(pop.stmt), "work items are taken from the end of the list (LIFO)",
-         pc.func.attr == "pop" and not pc.args and not pc.keywords, fi=fn.fi, node=pop.stmt)
-  steps = [(n, c) for (n, c, nm) in fn.calls(cfg) if nm == "self._recompute_step"]
-  if len(steps) != 1:
-    raise AnalysisError("%s: expected one _recompute_step call" % LOOP)
-  sn, scall = steps[0]
-  rr = kwarg(scall, "require_rows", 2)
-  run.ob(R3, fn.qualname, short(scall), "the popped node is visited with the popped rows as the "
-         "required rows", len(scall.args) >= 1 and text(scall.args[0]) == v_node and
-         rr is not None and text(rr) == v_rows, fi=fn.fi, node=scall)
-  tries = [s for s in stmts_in(fn.node.body, ast.Try) if any(sn.stmt is x for x in s.body)]
-  if len(tries) != 1:
-    raise AnalysisError("%s: _recompute_step call is not directly inside one try" % LOOP)
-  hs = [h for h in tries[0].handlers if h.type is not None and dotted(h.type) == "OrderError"
-        and h.name]
-  if len(hs) != 1:
-    raise AnalysisError("%s: `except OrderError as e` handler not found" % LOOP)
-  h = hs[0]
-  ev = h.name
-  hn = {n.id for n in cfg.nodes if n.kind == "handler" and n.stmt is h}
-  hbody = nodes_of_stmts(cfg, h.body)
-  pushes = []
-  for (n, c, nm) in fn.calls(cfg):
-    if n.id in hbody and isinstance(c.func, ast.Attribute) and text(c.func.value) == p_items and \
-        c.func.attr in ("append", "insert", "appendleft", "extend"):
-      pushes.append((n, c))
-  cur = [(n, c) for (n, c) in pushes if c.func.attr == "append" and len(c.args) == 1 and
-         isinstance(c.args[0], ast.Call) and dotted(c.args[0].func) == "WorkItem" and
-         len(c.args[0].args) == 3 and text(c.args[0].args[0]) == v_node]
-  dep = [(n, c) for (n, c) in pushes if c.func.attr == "append" and len(c.args) == 1 and
-         isinstance(c.args[0], ast.Call) and dotted(c.args[0].func) == "WorkItem" and
-         len(c.args[0].args) == 3 and text(c.args[0].args[0]) == "%s.node" % ev]
+  lr = LoopRoles(w)
+  fn, cfg, ex = lr.fn, lr.cfg, lr.ex
+  ev, hn, hbody, h = lr.ev, lr.hn, lr.hbody, lr.h
+  pc = lr.pop_call
+  run.ob(R3, fn.qualname, "<node>, <rows>, <locks> = work_items.pop()", "work items are taken from "
+         "the end of the list (LIFO)",
+         pc.func.attr == "pop" and not pc.args and not pc.keywords, fi=fn.fi, node=lr.pop.stmt)
+  stf = w.repo.func(STEP)
+  m = bind_call(lr.scall, stf) or {}
+  rr, nd = m.get("require_rows"), m.get(stf.params()[1])
+  run.ob(R3, fn.qualname, "self._recompute_step(<node>, require_rows=<rows>)", "the popped node is "
+         "visited with the popped rows as the required rows", lr.is_var(nd, lr.v_node) and
+         lr.is_var(rr, lr.v_rows), fi=fn.fi, node=lr.scall)
+  pushes = lr.pushes()
+  cur = [(n, c, wi) for (n, c, wi) in pushes if wi is not None and lr.is_var(wi["node"], lr.v_node)]
+  dep = [(n, c, wi) for (n, c, wi) in pushes if wi is not None and
+         ex.norm(wi["node"]) == "%s.node" % ev]
   ok_shape = len(pushes) == 2 and len(cur) == 1 and len(dep) == 1
   run.ob(R3, fn.qualname, "handler pushes exactly: the interrupted item and the dependency's item",
          "both pushes use append (the end the loop pops from)", ok_shape, fi=fn.fi, node=h)
   if ok_shape:
-    (cn, cc), (dn, dc) = cur[0], dep[0]
-    wi = cc.args[0]
-    run.ob(R3, fn.qualname, short(cc), "the interrupted item is re-pushed unchanged (same rows, "
-           "same locks)", text(wi.args[1]) == v_rows and text(wi.args[2]) == v_locks,
+    (cn, cc, cwi), (dn, dc, dwi) = cur[0], dep[0]
+    run.ob(R3, fn.qualname, "work_items.append(WorkItem(<node>, <rows>, <locks>))", "the "
+           "interrupted item is re-pushed unchanged (same rows, same locks)",
+           lr.is_var(cwi["row_ids"], lr.v_rows) and lr.is_var(cwi["locks"], lr.v_locks),
            fi=fn.fi, node=cc)
-    ok = cfg.dominated_by(dn.id, {cn.id}) and cn.id not in cfg.reach_after({dn.id}, removed=hn | {sn.id})
+    ok = cfg.dominated_by(dn.id, {cn.id}) and cn.id not in cfg.reach_after({dn.id}, removed=hn | {lr.sn.id})
     run.ob(R3, fn.qualname, "re-push of the interrupted item precedes the push of the dependency",
            "LIFO: the dependency is evaluated before the cell that needs it is retried", ok,
            fi=fn.fi, node=dc,
            witness=None if ok else "dependency pushed first: the interrupted cell is retried before "
            "its dependency was evaluated")
-    di = dc.args[0]
-    ok = isinstance(di.args[1], ast.List) and len(di.args[1].elts) == 1 and \
-        text(di.args[1].elts[0]) == "%s.row_id" % ev
-    run.ob(R3, fn.qualname, short(dc), "the dependency's item requires exactly the cell that was "
-           "missing", ok, fi=fn.fi, node=dc)
+    rws = ex.expand(dwi["row_ids"])
+    ok = isinstance(rws, (ast.List, ast.Tuple)) and len(rws.elts) == 1 and \
+        text(rws.elts[0]) == "%s.row_id" % ev
+    run.ob(R3, fn.qualname, "work_items.append(WorkItem(e.node, [e.row_id], ...))", "the "
+           "dependency's item requires exactly the cell that was missing", ok, fi=fn.fi, node=dc)
     # every handler path pushes both (normal completion of the handler)
-    exits = {m for m in cfg.reach_after(hn) if m not in hbody and m not in hn
-             and m != cfg.raise_exit.id}
+    exits = {m_ for m_ in cfg.reach_after(hn) if m_ not in hbody and m_ not in hn
+             and m_ != cfg.raise_exit.id}
     ok = not (cfg.reach(set(hn), removed={dn.id}) & exits)
     run.ob(R3, fn.qualname, "every normal path through the handler pushes the dependency",
            "an OrderError is never swallowed without scheduling what it asked for", ok, fi=fn.fi,
@@ -564,20 +684,28 @@ def r3_reorder(run, w, sc):
   init = w.fn("engine.OrderError.__init__")
   ips = init.fi.params()
   stored = {}
+  def store(t, v):
+    if isinstance(t, (ast.Tuple, ast.List)) and isinstance(v, (ast.Tuple, ast.List)) and \
+        len(t.elts) == len(v.elts):
+      for a, b in zip(t.elts, v.elts):
+        store(a, b)
+    elif isinstance(t, ast.Attribute) and isinstance(t.value, ast.Name) and t.value.id == ips[0]:
+      stored[t.attr] = expander(init).norm(v)
   for s in stmts_in(init.node.body, ast.Assign):
-    t = s.targets[0]
-    if isinstance(t, ast.Attribute) and isinstance(t.value, ast.Name) and t.value.id == ips[0]:
-      stored[t.attr] = text(s.value)
+    for t in s.targets:
+      store(t, s.value)
   ok = len(ips) == 4 and stored.get("node") == ips[2] and stored.get("row_id") == ips[3]
   run.ob(R3, init.qualname, "self.node, self.row_id = <2nd>, <3rd> constructor argument",
          "the fields the scheduler reads as the dependency are the cell named by the raiser", ok,
          fi=init.fi)
   # _recompute_step's own handler names the requiring cell before re-raising
   st = sc.fn
+  sex = sc.ex
   scfg = st.xcfg
+  srf = w.repo.funcs.get("engine.OrderError.set_requirer")
   for s in stmts_in(sc.loop.body, ast.Try):
     for hh in s.handlers:
-      if hh.type is not None and dotted(hh.type) == "OrderError" and hh.name:
+      if hh.type is not None and endswith(dotted(hh.type), "OrderError") and hh.name:
         e2 = hh.name
         hb = nodes_of_stmts(scfg, hh.body)
         hnn = {n.id for n in scfg.nodes if n.kind == "handler" and n.stmt is hh}
@@ -586,101 +714,183 @@ def r3_reorder(run, w, sc):
           raise AnalysisError("%s: OrderError handler does not re-raise" % STEP)
         def setter(attr, val):
           out = set()
+          def asg(t, v, nid):
+            if isinstance(t, (ast.Tuple, ast.List)) and isinstance(v, (ast.Tuple, ast.List)) and \
+                len(t.elts) == len(v.elts):
+              for a, b in zip(t.elts, v.elts):
+                asg(a, b, nid)
+            elif text(t) == "%s.%s" % (e2, attr) and sex.norm(v) == val:
+              out.add(nid)
           for x in scfg.nodes:
             if x.id in hb and x.kind == "stmt":
-              if isinstance(x.stmt, ast.Assign) and text(x.stmt.targets[0]) == "%s.%s" % (e2, attr) \
-                  and text(x.stmt.value) == val:
-                out.add(x.id)
+              if isinstance(x.stmt, ast.Assign):
+                for t in x.stmt.targets:
+                  asg(t, x.stmt.value, x.id)
               for c in calls_in(x.exprs):
-                if text(c.func) == "%s.set_requirer" % e2 and len(c.args) == 2 and \
-                    text(c.args[0 if attr == "requiring_node" else 1]) == val:
-                  out.add(x.id)
+                if text(c.func) == "%s.set_requirer" % e2 and srf is not None:
+                  m2 = bind_call(c, srf) or {}
+                  a_ = m2.get(srf.params()[1 if attr == "requiring_node" else 2])
+                  if a_ is not None and sex.norm(a_) == val:
+                    out.add(x.id)
           return out
         a = setter("requiring_node", sc.p_node)
         b = setter("requiring_row_id", sc.row)
         for r in rs:
           ok = bool(a) and bool(b) and not _reach_avoiding(scfg, hnn, r, a) and \
               not _reach_avoiding(scfg, hnn, r, b)
-          run.ob(R3, st.qualname, "except OrderError as %s: %s.requiring_node/row_id = node, row; raise"
-                 % (e2, e2), "the re-raised error tells the scheduler which cell to retry (and "
+          run.ob(R3, st.qualname, "except OrderError as e: e.requiring_node/row_id = node, row; raise",
+                 "the re-raised error tells the scheduler which cell to retry (and "
                  "lock) after the dependency", ok, fi=st.fi, node=scfg.nodes[r].stmt)
+  # the set_requirer helper, when used, stores what it is given in the fields the loop reads
+  if srf is not None:
+    sps = srf.params()
+    sst = {}
+    for s in stmts_in(srf.node.body, ast.Assign):
+      for t in s.targets:
+        if isinstance(t, ast.Attribute) and isinstance(t.value, ast.Name) and t.value.id == sps[0]:
+          sst[t.attr] = text(s.value)
+    run.ob(R3, srf.qualname, "self.requiring_node, self.requiring_row_id = <1st>, <2nd> argument",
+           "the helper stores the requiring cell in the fields the scheduler reads",
+           len(sps) == 3 and sst.get("requiring_node") == sps[1] and
+           sst.get("requiring_row_id") == sps[2], fi=srf, nontrivial=False)
   # the loop's lock / retry use the requiring fields, the push uses the dependency fields
   asserts = [n for n in cfg.nodes if n.id in hbody and n.kind == "assert"]
   run.note("C06-R3: handler asserts present: %d (not required by the rule)" % len(asserts))
 
 
 # ------------------------------------------------------------------------------------------
+def _key_function(fn, ex, key):
+  """(parameter name, returned expression) of a sort key given as a lambda or as a local def
+  consisting of one return."""
+  if isinstance(key, ast.Lambda) and len(key.args.args) == 1:
+    return key.args.args[0].arg, key.body
+  if isinstance(key, ast.Name):
+    v = ex.value(key.id)
+    if v is not None:
+      return _key_function(fn, ex, v)
+    for s in ast.walk(fn.node):
+      if isinstance(s, ast.FunctionDef) and s.name == key.id and s is not fn.node and \
+          len(s.args.args) == 1:
+        body = [b for b in s.body if not (isinstance(b, ast.Expr) and
+                                         isinstance(b.value, ast.Constant))]
+        if len(body) == 1 and isinstance(body[0], ast.Return) and body[0].value is not None:
+          return s.args.args[0].arg, body[0].value
+  return None
+
+
 def r4_lookups_first(run, w):
   R4 = run.rule("C06-R4", "_make_sorted_work_items schedules #lookup nodes before all others",
                 floor=4)
-  fn = w.fn("engine.Engine._make_sorted_work_items")
+  fn = inliner(w).fn("engine.Engine._make_sorted_work_items")
+  ex = expander(fn)
+  cfg = fn.cfg
+  du = DefUse(fn, cfg)
   p = fn.fi.params()[1]
   sorts = [c for c in calls_in(fn.node.body) if dotted(c.func) == "sorted"]
-  if len(sorts) != 1:
+  sort_stmts = [(n, c) for (n, c, nm) in fn.calls()
+                if isinstance(c.func, ast.Attribute) and c.func.attr == "sort"]
+  if len(sorts) != 1 or sort_stmts:
     raise AnalysisError("_make_sorted_work_items: expected one sorted(...) call")
   s = sorts[0]
   key = kwarg(s, "key")
   rev = kwarg(s, "reverse")
-  if not isinstance(key, ast.Lambda) or len(key.args.args) != 1:
-    raise AnalysisError("_make_sorted_work_items: sort key is not a one-argument lambda")
-  kv = key.args.args[0].arg
-  first = key.body.elts[0] if isinstance(key.body, ast.Tuple) and key.body.elts else key.body
+  kf = _key_function(fn, ex, key) if key is not None else None
+  if kf is None:
+    raise AnalysisError("_make_sorted_work_items: sort key is not a one-argument function")
+  kv, kbody = kf
+  first = kbody.elts[0] if isinstance(kbody, ast.Tuple) and kbody.elts else kbody
   # first component: [not] <n>.col_id.startswith('#lookup')
   neg = False
   e = first
-  if isinstance(e, ast.UnaryOp) and isinstance(e.op, ast.Not):
-    neg, e = True, e.operand
+  while isinstance(e, ast.UnaryOp) and isinstance(e.op, ast.Not):
+    neg, e = not neg, e.operand
   is_lookup_test = isinstance(e, ast.Call) and isinstance(e.func, ast.Attribute) and \
       e.func.attr == "startswith" and text(e.func.value) == "%s.col_id" % kv and \
       len(e.args) == 1 and isinstance(e.args[0], ast.Constant) and e.args[0].value == "#lookup"
   if not is_lookup_test:
     raise AnalysisError("_make_sorted_work_items: first key component is not a #lookup test")
+  rev = ex.expand(rev) if rev is not None else None
   if rev is not None and not isinstance(rev, ast.Constant):
     raise AnalysisError("_make_sorted_work_items: reverse= is not a constant")
   reverse = bool(rev.value) if rev is not None else False
   # Items are popped from the END of the returned list. Ascending sort puts False before True.
-  # lookups carry key `not neg` ... position of lookups in the list:
   lookup_key = (not True) if neg else True          # key value of a lookup node
   lookups_last_in_list = (lookup_key is True) != reverse   # ascending: True last; reversed: False last
   # the returned list preserves the sorted order
-  rets = [x for x in stmts_in(fn.node.body, ast.Return)]
-  built_in_order = False
-  consumed_from_end = True
-  for r in rets:
-    v = r.value
-    if isinstance(v, ast.ListComp) and len(v.generators) == 1 and not v.generators[0].ifs:
-      it = v.generators[0].iter
-      src = it
-      if isinstance(it, ast.Name):
-        ds = E.local_defs(fn.node, it.id)
-        src = ds[-1] if ds else None
-      built_in_order = src is s
-  run.ob(R4, fn.qualname, short(s, 100), "with the scheduler popping from the end of the list, "
+  def is_sorted_result(e, nid):
+    e = value_at(fn, cfg, du, nid, e) if isinstance(e, ast.Name) else e
+    return e is s or (isinstance(e, ast.Call) and text(e) == text(ex.expand(s)))
+  built_in_order = None
+  for (n, r, v) in returns_of(fn):
+    if v is None:
+      continue
+    if isinstance(v, (ast.ListComp, ast.GeneratorExp)) or \
+        (isinstance(v, ast.Call) and dotted(v.func) == "list" and len(v.args) == 1 and
+         isinstance(v.args[0], (ast.ListComp, ast.GeneratorExp))):
+      comp = v if isinstance(v, (ast.ListComp, ast.GeneratorExp)) else v.args[0]
+      if len(comp.generators) == 1:
+        g = comp.generators[0]
+        it = g.iter
+        src_ok = text(it) == text(ex.expand(s))
+        if isinstance(it, ast.Name):
+          rd = reaching_defs(cfg, du, n.id, it.id)
+          src_ok = len(rd) == 1 and isinstance(cfg.nodes[next(iter(rd))].stmt, ast.Assign) and \
+              cfg.nodes[next(iter(rd))].stmt.value is s
+        built_in_order = bool(src_ok) and not g.ifs
+        continue
+    if isinstance(r.value, ast.Name):
+      # <out> = []; for <n> in <sorted>: <out>.append(WorkItem(<n>, ...)); return <out>
+      out_v = r.value.id
+      apps = [(x, c) for (x, c, nm) in fn.calls() if nm == "%s.append" % out_v]
+      lps = [lp for lp in real_loops(fn.node.body, ast.For)
+             if any(x.id in nodes_of_stmts(cfg, lp.body) for (x, c) in apps)]
+      if len(apps) == 1 and len(lps) == 1 and not loop_breaks(lps[0]) and \
+          not stmts_in(lps[0].body, (ast.Continue, ast.If)):
+        it = lps[0].iter
+        hd = next(iter(nodes_for(cfg, lps[0])))
+        src_ok = text(it) == text(s)
+        if isinstance(it, ast.Name):
+          rd = reaching_defs(cfg, du, hd, it.id)
+          src_ok = len(rd) == 1 and isinstance(cfg.nodes[next(iter(rd))].stmt, ast.Assign) and \
+              cfg.nodes[next(iter(rd))].stmt.value is s
+        built_in_order = bool(src_ok)
+        continue
+    raise AnalysisError("_make_sorted_work_items: cannot follow how the returned list is built "
+                        "(`%s`)" % short(v))
+  if built_in_order is None:
+    raise AnalysisError("_make_sorted_work_items: nothing is returned")
+  run.ob(R4, fn.qualname, "sorted(<nodes>, reverse=.., key=(not #lookup, node))", "with the "
+         "scheduler popping from the end of the list, "
          "#lookup nodes come out first", built_in_order and lookups_last_in_list, fi=fn.fi, node=s,
          witness=None if lookups_last_in_list else "lookup nodes sort to the front of the list, "
          "which the LIFO scheduler reaches last")
-  srt_in = s.args[0] if s.args else None
-  run.ob(R4, fn.qualname, "sorted(%s, ...)" % (text(srt_in) if srt_in is not None else "?"),
+  srt_in = s.args[0] if s.args else kwarg(s, "iterable")
+  run.ob(R4, fn.qualname, "sorted(<the nodes handed in>, ...)",
          "every node handed in is scheduled (no filtering)",
-         isinstance(srt_in, ast.Name) and srt_in.id == p, fi=fn.fi, node=s, nontrivial=False)
+         srt_in is not None and ex.norm(srt_in) == p, fi=fn.fi, node=s, nontrivial=False)
   # both producers of the initial order go through this function
+  ulf = w.repo.func(LOOP)
   for q in ("engine.Engine._bring_all_up_to_date", LOOP):
-    f2 = w.fn(q)
+    f2 = inliner(w).fn(q)
+    ex2 = expander(f2)
+    cfg2 = f2.cfg
+    du2 = DefUse(f2, cfg2)
     for (n, c, nm) in f2.calls():
-      if nm == "self._update_loop" and c.args:
-        a = c.args[0]
-        ok = isinstance(a, ast.Name) and any(
-          isinstance(d, ast.Call) and f2.name(d) == "self._make_sorted_work_items"
-          for d in E.local_defs(f2.node, a.id))
-        run.ob(R4, q, short(c), "the full-recalculation loop starts from the lookups-first order",
+      if nm == "self._update_loop":
+        a = call_arg(c, ulf, ulf.params()[1])
+        v = value_at(f2, cfg2, du2, n.id, a) if a is not None else None
+        ok = isinstance(v, ast.Call) and endswith(dotted(v.func), "self._make_sorted_work_items")
+        run.ob(R4, q, "self._update_loop(self._make_sorted_work_items(...))", "the "
+               "full-recalculation loop starts from the lookups-first order",
                ok, fi=f2.fi, node=c)
     if q == LOOP:
       refill = [x for x in stmts_in(f2.node.body, ast.Assign)
-                if text(x.targets[0]) == f2.fi.params()[1]]
+                if any(text(t) == f2.fi.params()[1] for t in x.targets)]
       for x in refill:
-        ok = isinstance(x.value, ast.Call) and f2.name(x.value) == "self._make_sorted_work_items"
-        run.ob(R4, q, short(x), "when the stack runs dry it is refilled in the lookups-first order",
-               ok, fi=f2.fi, node=x)
+        v = ex2.expand(x.value)
+        ok = isinstance(v, ast.Call) and endswith(dotted(v.func), "self._make_sorted_work_items")
+        run.ob(R4, q, "work_items = self._make_sorted_work_items(...)", "when the stack runs dry it "
+               "is refilled in the lookups-first order", ok, fi=f2.fi, node=x)
 
 
 # ------------------------------------------------------------------------------------------
@@ -692,44 +902,43 @@ def r5_done_after_store(run, w, sc):
   head = sc.head(cfg)
   body = sc.body_nodes(cfg)
   evals = sc.eval_nodes(cfg)
-  adds = set()
+  adds = {}
   for (n, c, nm) in fn.calls(cfg):
     if n.id in body and isinstance(c.func, ast.Attribute) and c.func.attr == "add" and \
-        isinstance(c.func.value, ast.Name) and c.func.value.id in sc.done_vars:
-      adds.add(n.id)
+        sc.is_done_set(c.func.value):
+      adds[n.id] = c
   if not adds:
     raise AnalysisError("%s: no <done set>.add(row) in the scan loop" % STEP)
   sets = {n.id for (n, c, nm) in fn.calls(cfg) if n.id in body and E.is_column_mutation(c, nm, fn)}
   if not sets:
     raise AnalysisError("%s: column write not found in the scan loop" % STEP)
+  ohs = set()
+  for s in stmts_in(sc.loop.body, ast.Try):
+    for hh in s.handlers:
+      if hh.type is not None and endswith(dotted(hh.type), "OrderError"):
+        ohs |= {n.id for n in cfg.nodes if n.kind == "handler" and n.stmt is hh}
+  if not ohs:
+    raise AnalysisError("%s: OrderError handler around the evaluation not found" % STEP)
   for a in sorted(adds):
-    c = [c for c in calls_in(cfg.nodes[a].exprs) if isinstance(c.func, ast.Attribute) and
-         c.func.attr == "add"][0]
-    run.ob(R5, fn.qualname, short(c), "the row marked done is the row just evaluated",
-           len(c.args) == 1 and text(c.args[0]) == sc.row, fi=fn.fi, node=c, nontrivial=False)
+    c = adds[a]
+    run.ob(R5, fn.qualname, "<done set>.add(<row>)", "the row marked done is the row just evaluated",
+           len(c.args) == 1 and sc.ex.norm(c.args[0]) == sc.row, fi=fn.fi, node=c, nontrivial=False)
     # completed evaluation dominates the marking (within the iteration)
     ok = cfg.dominated_by(a, evals) and \
         a in cfg.reach_after(evals, removed={head}, completed=True)
-    run.ob(R5, fn.qualname, "%s after %s" % (short(c), short(sc.eval, 40)),
+    run.ob(R5, fn.qualname, "<done set>.add(<row>) after self._recompute_one_cell(...)",
            "only an evaluated cell is marked done", ok, fi=fn.fi, node=c)
     # not reachable from an aborted evaluation (OrderError handler) within the iteration
-    ohs = set()
-    for s in stmts_in(sc.loop.body, ast.Try):
-      for hh in s.handlers:
-        if hh.type is not None and dotted(hh.type) == "OrderError":
-          ohs |= {n.id for n in cfg.nodes if n.kind == "handler" and n.stmt is hh}
-    if not ohs:
-      raise AnalysisError("%s: OrderError handler around the evaluation not found" % STEP)
     reach = cfg.reach(ohs, removed={head})
     ok = a not in reach and not (reach & sets)
-    run.ob(R5, fn.qualname, "except OrderError: never reaches %s" % short(c),
+    run.ob(R5, fn.qualname, "except OrderError: never reaches <done set>.add(<row>)",
            "a cell whose evaluation was interrupted by an OrderError is neither stored nor marked "
            "done", ok, fi=fn.fi, node=c,
            witness=None if ok else cfg.describe_path(cfg.path(sorted(ohs)[0], {a} | sets,
                                                               removed={head})))
     # the store precedes the marking
     ok = not (cfg.reach_after({a}, removed={head}) & sets)
-    run.ob(R5, fn.qualname, "col.set(...) is not after %s" % short(c),
+    run.ob(R5, fn.qualname, "col.set(...) is not after <done set>.add(<row>)",
            "within one iteration the value is stored before the cell counts as done", ok,
            fi=fn.fi, node=c)
 
@@ -741,6 +950,12 @@ VARIANTS = [
           continue""",
    """          # Nothing need be done for required rows that are already up to date.
           break""", "C06-R1"),
+  ("required-count-from-deduplicated-set", EN,
+   "      require_count = len(require_rows)\n",
+   "      require_count = len(set(require_rows))\n", "C06-R1"),
+  ("required-count-off-by-one", EN,
+   "        required = i < require_count or require_count == 0",
+   "        required = i < require_count - 1 or require_count == 0", "C06-R1"),
   ("nested-visit-evaluates", EN,
    "      self._recompute_step(node, allow_evaluation=False, require_rows=row_ids)",
    "      self._recompute_step(node, require_rows=row_ids)", "C06-R1"),
